@@ -521,7 +521,35 @@ func c11Scenarios(tier string) []*Scenario {
 		}
 	}
 	sc3.Check = func(x *Run, o *rt.Outcome) (string, string, string) { return "", "", "ok" }
-	return []*Scenario{sc, sc2, sc3}
+	// Q4: the test scope itself (it sits in every shard of its registry: 3 here) is snapshotted while another goroutine
+	// makes the first use of metric names on it - the slow path that needs the scope's write locks. Go's RWMutex lets a
+	// waiting writer block new readers: the scenario runs with that preference, so that read locks a snapshot holds
+	// on to while it takes the same lock again are a deadlock here as they are in production.
+	sc4 := &Scenario{Property: "C11", Name: "Q4-snapshot-vs-first-use-on-the-test-scope-itself-3-shards", WPref: true}
+	sc4.Body = func(x *Run) {
+		root := tally.VerifNewTestScopeOpts(tally.ScopeOptions{Prefix: "p"}, 3)
+		root.Counter("old").Inc(1)
+		u := rt.GoNamed("user", func() {
+			root.Counter("new").Inc(5)
+			root.Gauge("g").Update(2)
+			root.Timer("t").Record(3)
+			root.Histogram("h", tally.ValueBuckets{1}).RecordValue(0.5)
+		})
+		sn := rt.GoNamed("snap", func() { _ = root.Snapshot() })
+		u.Join()
+		sn.Join()
+		snap := root.Snapshot()
+		cv := snap.Counters()[tally.KeyForPrefixedStringMap("p.new", nil)]
+		if cv == nil || cv.Value() != 5 || snap.Counters()[tally.KeyForPrefixedStringMap("p.old", nil)].Value() != 1 {
+			x.failf("final-snapshot-incomplete", "counters after the concurrent phase: %v", snapshotSig(snap))
+		}
+		if g := snap.Gauges()[tally.KeyForPrefixedStringMap("p.g", nil)]; g == nil || g.Value() != 2 {
+			x.failf("final-snapshot-incomplete", "gauge missing: %v", snapshotSig(snap))
+		}
+	}
+	sc4.Check = func(x *Run, o *rt.Outcome) (string, string, string) { return "", "", "ok" }
+
+	return []*Scenario{sc, sc2, sc3, sc4}
 }
 
 // c11BuiltinDefaults: the library's default histogram buckets (documented in scope.go).
